@@ -42,6 +42,8 @@ type FuncContract struct {
 	Key      string
 	Pkg      string
 	Requires []Clause
+	Assumes  []Clause
+	Tracks   []Clause // state predicates re-established at every join (proved per incoming edge, then carried over by congruence)
 	Ensures  []Clause
 	Modifies []string
 	HasMod   bool
@@ -100,7 +102,7 @@ var (
 	reGhost     = regexp.MustCompile(`^ghost\s+var\s+(\w+)\s+([\w.*\[\]]+)\s*$`)
 	reLet       = regexp.MustCompile(`^let\s+(\w+)\s*:=\s*(.*)$`)
 	keywordsSet = map[string]bool{"package": true, "func": true, "trusted": true, "requires": true, "ensures": true, "modifies": true,
-		"let": true, "loop": true, "foreach": true, "case": true, "pure": true, "pred": true, "uninterp": true, "ghost": true, "lemma": true, "attr": true}
+		"let": true, "loop": true, "foreach": true, "case": true, "assumes": true, "tracks": true, "pure": true, "pred": true, "uninterp": true, "ghost": true, "lemma": true, "attr": true}
 )
 
 type rawClause struct {
@@ -215,7 +217,16 @@ func (db *ContractDB) loadContractFile(path, pkg string) error {
 			} else {
 				cur.Attrs[rest] = "true"
 			}
-		case "requires", "ensures":
+		case "tracks":
+			if cur == nil {
+				return fail(fmt.Errorf("tracks outside func"))
+			}
+			c, err := mk(rest)
+			if err != nil {
+				return fail(err)
+			}
+			cur.Tracks = append(cur.Tracks, c)
+		case "requires", "ensures", "assumes":
 			if cur == nil {
 				return fail(fmt.Errorf("%s outside func", first))
 			}
@@ -223,7 +234,10 @@ func (db *ContractDB) loadContractFile(path, pkg string) error {
 			if err != nil {
 				return fail(err)
 			}
-			if first == "requires" {
+			if first == "assumes" {
+				// a data invariant of the input heap that callers are not asked to prove; reported as an assumption
+				cur.Assumes = append(cur.Assumes, c)
+			} else if first == "requires" {
 				cur.Requires = append(cur.Requires, c)
 			} else {
 				cur.Ensures = append(cur.Ensures, c)
